@@ -66,6 +66,7 @@ type c12Scenario struct {
 	resps2                               []c12Resp
 	huge                                 bool // quota: the input count crosses 65535 -> 65536 during Fund
 	requote                              int  // 0 no, 1 AddQuote, 2 UnmarshalJSON between the two Fund calls
+	sharedFee                            bool // one *bt.Fee object registered under both fee types (a miner with a single rate)
 	stdSat2, stdBytes2                   int
 	dataSat2, dataBytes2                 int
 	outs                                 []c12Out
@@ -113,6 +114,11 @@ func (s *c12Scenario) build() (*bt.Tx, *bt.FeeQuote) {
 	fq := bt.NewFeeQuote()
 	// the relay fee is a different, unrelated rate: funding is priced with the mining fee only
 	relay := bt.FeeUnit{Satoshis: 1 + int(s.seedBytes[0])*7, Bytes: 1 + int(s.seedBytes[1])}
+	if s.sharedFee {
+		one := &bt.Fee{FeeType: bt.FeeTypeStandard, MiningFee: bt.FeeUnit{Satoshis: s.stdSat, Bytes: s.stdBytes}, RelayFee: relay}
+		fq.AddQuote(bt.FeeTypeStandard, one).AddQuote(bt.FeeTypeData, one)
+		return tx, fq
+	}
 	fq.AddQuote(bt.FeeTypeStandard, &bt.Fee{FeeType: bt.FeeTypeStandard, MiningFee: bt.FeeUnit{Satoshis: s.stdSat, Bytes: s.stdBytes}, RelayFee: relay})
 	fq.AddQuote(bt.FeeTypeData, &bt.Fee{FeeType: bt.FeeTypeData, MiningFee: bt.FeeUnit{Satoshis: s.dataSat, Bytes: s.dataBytes}, RelayFee: relay})
 	return tx, fq
@@ -138,7 +144,12 @@ func genC12(c *kernel.RunCtx) *c12Scenario {
 	s := &c12Scenario{}
 	c.Begin("quote")
 	s.seedBytes = c.Bytes(32)
-	switch c.Pick(3, 2, 2, 2) {
+	switch c.Pick(3, 2, 2, 2, 2) {
+	case 4:
+		// a single rate with a small denominator (per-class rounding matters), the same object under both types
+		s.stdSat, s.stdBytes = c.Range(1, 7), c.Range(2, 9)
+		s.dataSat, s.dataBytes = s.stdSat, s.stdBytes
+		s.sharedFee = true
 	case 0:
 		s.stdSat, s.stdBytes, s.dataSat, s.dataBytes = 5, 100, 5, 100
 	case 1:
